@@ -136,7 +136,7 @@ def run_case(case):
         elif solver == "ho":
             r = rnd.choice(HO_ROOTS)
             tol = rnd.choice([1e-8, 1e-8, 1e-20, 1e-6, 1e-4])
-            cfg = CoupledHigherOrderConfig(order=rnd.choice([2, 3, 3, 4]), rel_epsilon=rnd.choice([0.0, 0.0, 1e-6, 1e-3]), tolerance=tol, max_iterations=rnd.choice([100, 100, 30]))
+            cfg = CoupledHigherOrderConfig(order=rnd.choice([2, 3, 3, 4]), rel_epsilon=rnd.choice([0.0, 0.0, 1e-6, 1e-3]), tolerance=tol, max_iterations=rnd.choice([100, 100, 30, 100, 1, 2, 3, 5]))  # tiny budgets: residuals land on both sides of the 0.1 guard
             tol_solver = n * tol
             exp_f32 = False
             cm = C_M[solver]
